@@ -148,16 +148,23 @@ func errKind(err error) string {
 // c14ServeCase runs the scenario and returns the canonical real output (one part per connection)
 // and the oracle's verdict ("" = the property held).
 func c14ServeCase(proto string, gmp int, timing, split string, conns [][]*c14Req) (string, string) {
+	real, verdict, _ := c14ServeCaseX(proto, gmp, timing, split, conns)
+	return real, verdict
+}
+
+// c14ServeCaseX also returns the parsed replies per connection. timing "seq": the connections are
+// served strictly one after the other (each fully answered before the next is opened).
+func c14ServeCaseX(proto string, gmp int, timing, split string, conns [][]*c14Req) (string, string, [][]*c14Reply) {
 	if gmp == 1 {
 		old := runtime.GOMAXPROCS(1)
 		defer runtime.GOMAXPROCS(old)
 	}
 	st, err := thrift.NewTServerSocket("127.0.0.1:0")
 	if err != nil {
-		return "harness:listen", ""
+		return "harness:listen", "", nil
 	}
 	if err := st.Listen(); err != nil {
-		return "harness:listen", ""
+		return "harness:listen", "", nil
 	}
 	addr := st.Addr().String()
 	srv := frugal.NewFSimpleServer(newC14Processor(), st, frugal.NewFProtocolFactory(c14Factories[proto]))
@@ -204,7 +211,7 @@ func c14ServeCase(proto string, gmp int, timing, split string, conns [][]*c14Req
 	var wg sync.WaitGroup
 	for i := range conns {
 		wg.Add(1)
-		go func(i int) {
+		run := func(i int) {
 			defer wg.Done()
 			if i >= before {
 				open(i)
@@ -232,7 +239,12 @@ func c14ServeCase(proto string, gmp int, timing, split string, conns [][]*c14Req
 					res.leftover = true
 				}
 			}
-		}(i)
+		}
+		if timing == "seq" {
+			run(i)
+		} else {
+			go run(i)
+		}
 	}
 	wg.Wait()
 	srv.Stop()
@@ -246,12 +258,14 @@ func c14ServeCase(proto string, gmp int, timing, split string, conns [][]*c14Req
 	case <-time.After(2 * time.Second):
 	}
 	parts := make([]string, len(conns))
+	all := make([][]*c14Reply, len(conns))
 	verdict := ""
 	for i, res := range results {
 		if strings.HasPrefix(res.problem, "harness:") {
-			return res.problem, ""
+			return res.problem, "", nil
 		}
 		replies, perr := c14ParseStream(proto, res.stream)
+		all[i] = replies
 		shown := make([]string, len(replies))
 		for j, rp := range replies {
 			shown[j] = rp.String()
@@ -280,7 +294,7 @@ func c14ServeCase(proto string, gmp int, timing, split string, conns [][]*c14Req
 			}
 		}
 	}
-	return strings.Join(parts, " ; "), verdict
+	return strings.Join(parts, " ; "), verdict, all
 }
 
 func c14SrvLine(proto string, gmp int, timing, split string, conns [][]*c14Req) string {
